@@ -198,12 +198,13 @@ Proof.
 Qed.
 
 (* for i, x := range xs { if i > 0 { expr += sep }; expr += x.String() } *)
+(* the cases (first element or not) are split on the index itself; the source's test, whatever its spelling, is decided by lia *)
 Ltac st_join_loop IH :=
-  intros [|[x|] l] acc i Hi; cbn -[Z.gtb];
+  intros [|[x|] l] acc i Hi; cbn -[Z.gtb Z.ltb Z.geb Z.leb Z.eqb];
   [ destruct (Z.gtb i 0); cbn [map concat_b join]; now rewrite app_nil_r
-  | rewrite IH by lia; destruct (opt_all l) as [l'|]; [|reflexivity];
-    replace (Z.gtb (i + 1) 0) with true by lia; cbv iota;
-    destruct (Z.gtb i 0); cbv iota; rewrite ?st_join_cons; cbn [map concat_b]; rewrite <- ?app_assoc; reflexivity
+  | rewrite IH by lia; destruct (opt_all l) as [l'|];
+    destruct (Z_lt_dec 0 i); st_decide_ifs; cbv beta iota zeta; rewrite ?IH by lia; try reflexivity;
+    rewrite ?st_join_cons; cbn [map concat_b]; rewrite <- ?app_assoc; reflexivity
   | reflexivity ].
 
 Lemma func_loop_matches : forall (l : list (option bstr)) (acc : bstr) (i : Z), (0 <= i)%Z ->
